@@ -40,6 +40,21 @@ class Roles:
             if k < len(v.elts) and not any(isinstance(x, ast.Starred) for x in v.elts):
                 return [(v.elts[k], nid)]
             return None
+        if isinstance(v, (ast.ListComp, ast.GeneratorExp)) and len(v.generators) == 1 and depth < 3:
+            # [f(m) for m in (a, b)]: element k is f(element k of the iterable)
+            g = v.generators[0]
+            if not g.ifs and isinstance(g.target, ast.Name):
+                got = self._select(g.iter, nid, k, depth + 1)
+                if got:
+                    import copy as _copy
+                    from oqv.canon import _Subst
+                    out = []
+                    for (elt, at) in got:
+                        e2 = _Subst({g.target.id: elt}).visit(_copy.deepcopy(v.elt))
+                        ast.fix_missing_locations(e2)
+                        out.append((e2, at))
+                    return out
+            return None
         if isinstance(v, ast.Name) and depth < 3:
             out = []
             for df in self.du.reaching(nid, v.id):
@@ -121,6 +136,10 @@ def _is_pair_or_list_of_pairs(P: "Roles", a: ast.AST, nid: int, depth: int = 0) 
     return False
 
 
+# np.where(mask)[0][0] and its spellings: positions at which a one-argument mask holds
+_FIRST_MATCH = ("where", "nonzero", "flatnonzero", "argwhere")
+
+
 def _fmt(r) -> str:
     return "/".join(sorted(r)) if r else "none"
 
@@ -167,7 +186,7 @@ def r1(prog: Program, chk: Check) -> None:
     selectors = 0
     for su in [u for m_ in front_mods for u in prog.units_in(m_) if not isinstance(u.node, ast.Lambda)]:
         lcs = [lc for lc in walk_local(su.node) if isinstance(lc, ast.ListComp) and any(
-            isinstance(c, ast.Call) and (dotted(c.func) or "").endswith("where")
+            isinstance(c, ast.Call) and (dotted(c.func) or "").split(".")[-1] in _FIRST_MATCH
             for c in ast.walk(lc.elt))]
         if not lcs:
             continue
@@ -177,7 +196,7 @@ def r1(prog: Program, chk: Check) -> None:
         for lc in lcs:
             nid = R.du.node_of(lc)
             wh = [c for c in ast.walk(lc.elt) if isinstance(c, ast.Call)
-                  and (dotted(c.func) or "").endswith("where")]
+                  and (dotted(c.func) or "").split(".")[-1] in _FIRST_MATCH]
             r_in = R.role(wh[0], nid)
             r_bound = R.role(lc.generators[0].iter, nid)
             ok = len(r_in) == 1 and r_in == r_bound
@@ -305,15 +324,17 @@ def r1(prog: Program, chk: Check) -> None:
     R = Roles(im)
     chk.saw(im, R.du.cfg)
 
-    def op_deps(e: ast.AST, nid: int) -> Set[str]:
+    def op_deps(e: ast.AST, nid: int, depth: int = 0) -> Set[str]:
         """which of op_m / op_p (commutator / anticommutator eigenvalues) e depends on"""
         out = set()
         for n in names_loaded(e):
             for df in R.du.reaching(nid, n):
                 if df.value is not None and dotted(df.value) in ("coupling_comm",):
                     out.add("comm")
-                if df.value is not None and dotted(df.value) in ("coupling_acomm",):
+                elif df.value is not None and dotted(df.value) in ("coupling_acomm",):
                     out.add("acomm")
+                elif df.value is not None and depth < 4 and df.node != nid:
+                    out |= op_deps(df.value, df.node, depth + 1)     # through temporaries
             if n == "coupling_comm":
                 out.add("comm")
             if n == "coupling_acomm":
@@ -327,12 +348,17 @@ def r1(prog: Program, chk: Check) -> None:
         raise AnalysisError("R1: influence_matrix no longer returns one local variable")
     infl_name = ret_names.pop()
     for st in walk_local(im.node):
-        if not (isinstance(st, ast.Assign) and dotted(st.targets[0]) == infl_name):
+        if isinstance(st, ast.Return) and st.value is not None and not isinstance(st.value, ast.Name) \
+                and any(isinstance(x, ast.Subscript) for x in ast.walk(st.value)) \
+                and any(isinstance(x, ast.Name) and x.id == infl_name for x in ast.walk(st.value)):
+            pass          # the reduced influence returned directly (guard-clause style)
+        elif not (isinstance(st, ast.Assign) and dotted(st.targets[0]) == infl_name):
             continue
-        ctx = [br for (t, br) in branch_context(im.node, st)
-               if isinstance(t, ast.Compare) and dotted(t.left) == "deg_positions"]
-        if ctx != [True]:
-            continue
+        else:
+            ctx = [br for (t, br) in branch_context(im.node, st)
+                   if isinstance(t, ast.Compare) and dotted(t.left) == "deg_positions"]
+            if ctx != [True]:
+                continue
         nid = R.du.node_of(st.value)
         v = st.value
         found += 1
